@@ -460,7 +460,7 @@ class Translator:
             return self.eval(mod.toplevel_assign[name], {}, mod, depth)
         if name in ("int", "float", "len", "range", "abs", "sum", "list", "tuple", "zip", "enumerate", "min", "max",
                     "isinstance", "hasattr", "callable", "complex", "round", "pow", "print", "dict", "str", "sorted", "reversed", "bool", "type",
-                    "set", "frozenset", "any", "all"):
+                    "set", "frozenset", "any", "all", "map", "filter", "getattr"):
             return Opaque("builtin." + name)
         return Opaque(name)
 
@@ -605,6 +605,8 @@ class Translator:
     def method_call(self, obj, name, args, kwargs, n, mod, depth):
         if isinstance(obj, (list, str, tuple)) and name == "index":
             return sp.Integer(obj.index(args[0]))
+        if isinstance(obj, str) and name == "format":
+            return obj.format(*[str(a) for a in args], **{k: str(v) for k, v in kwargs.items()})
         if isinstance(obj, PySet):
             if name in ("add", "discard"):
                 getattr(obj, name)(args[0])
@@ -724,6 +726,23 @@ class Translator:
         if name in ("any", "all"):
             vals = [self.truth(x) for x in list(a0)]
             return any(vals) if name == "any" else all(vals)
+        if name == "getattr" and len(args) >= 2 and isinstance(args[1], str):
+            if isinstance(a0, SelfObj):
+                try:
+                    return a0.get(args[1], self, 0)
+                except Unmodelled:
+                    if len(args) > 2:
+                        return args[2]
+                    raise
+            if isinstance(a0, dict):
+                if args[1] in a0:
+                    return a0[args[1]]
+                if len(args) > 2:
+                    return args[2]
+            raise Unmodelled("getattr on a symbolic value")
+        if name == "map" and len(args) >= 2:
+            seqs = [list(x) for x in args[1:]]
+            return [self.apply(a0, list(items), {}, n, 0) for items in zip(*seqs)]
         if name == "zip":
             return list(zip(*[list(x) for x in args]))
         if name == "enumerate":
@@ -887,6 +906,13 @@ class Translator:
             return np.einsum(expr, *[as_arr(x) for x in args[1:]])
         if last in ("matmul", "dot"):
             return np.dot(as_arr(args[0]), as_arr(args[1]))
+        if last == "pad" and len(args) >= 2 and str(kwargs.get("mode", args[2] if len(args) > 2 else "CONSTANT")).upper() == "CONSTANT":
+            pads = [tuple(_pyint(x) for x in pr) for pr in args[1]]
+            fill = kwargs.get("constant_values", 0)
+            return np.pad(as_arr(a0), pads, mode="constant", constant_values=_s(fill))
+        if last == "gather" and len(args) >= 2:
+            idx = [_pyint(x) for x in args[1]]
+            return np.take(as_arr(a0), idx, axis=ax(0, pos=2))
         if last in ("pow", "power") and len(args) == 2:
             return as_arr(args[0]) ** as_arr(args[1])
         if last in ("multiply", "add", "subtract", "divide", "truediv") and len(args) == 2:
